@@ -44,6 +44,16 @@ def json_value(rng, depth=2, shape=None):
             for _ in range(rng.randint(0, 3))}
 
 
+LONG_PREFIX = "".join(VOCAB) * 36          # > 10000 characters, shared by every long text
+LONG_STREAM_PREFIX = "".join(VOCAB[:12]) * 9  # > 1000 characters
+LONG_P = [0.0]                                # knob: probability that a text payload is long (set by the engine)
+
+
+def _long_text(rng, stream=False):
+    pre = LONG_STREAM_PREFIX if stream else LONG_PREFIX
+    return pre + "".join(rng.choice(VOCAB) for _ in range(rng.randint(0, 3)))
+
+
 def _png(rng):
     raw = bytes(rng.getrandbits(8) for _ in range(rng.choice([48, 60, 96])))
     return base64.b64encode(raw).decode() + "\n"
@@ -58,6 +68,8 @@ def mime_bundle(rng, shapes=None):
             data[m] = json_value(rng, 2, rng.choice(shapes) if shapes else None)
             if not isinstance(data[m], (dict, list)):
                 data[m] = {"v": data[m]}
+        elif m.startswith("text/") and rng.random() < LONG_P[0]:
+            data[m] = _long_text(rng)
         else:
             data[m] = _lines(rng, 1, 3) or "t"
     return data
@@ -74,6 +86,8 @@ def metadata(rng, shapes=None, p=0.5):
 def output(rng, shapes=None):
     t = rng.choice(["stream", "stream", "error", "display_data", "execute_result"])
     if t == "stream":
+        if rng.random() < LONG_P[0]:
+            return {"output_type": "stream", "name": "stdout", "text": _long_text(rng, stream=True)}
         return {"output_type": "stream", "name": rng.choice(["stdout", "stderr"]), "text": _lines(rng, 1, 3) or "o\n"}
     if t == "error":
         return {"output_type": "error", "ename": rng.choice(["ValueError", "KeyError"]),
@@ -213,6 +227,28 @@ def edit(rng, nb, n_edits=None, shapes=None, focus=None, kinds=None):
                     c["outputs"].append(output(rng, shapes))
             else:
                 c["source"] = _edit_lines(rng, c["source"])
+        elif k in ("outmeta", "outtail"):
+            # keep an output's payload but change its execution count / metadata, or only the tail of its text
+            cands = [c for c in cells if c["cell_type"] == "code" and c.get("outputs")]
+            if not cands:
+                cells[i]["source"] = _edit_lines(rng, cells[i]["source"])
+                continue
+            c = rng.choice(cands)
+            o = rng.choice(c["outputs"])
+            if k == "outmeta":
+                if o["output_type"] == "execute_result":
+                    o["execution_count"] = rng.choice([None, 1, 2, 3, 5, 8])
+                if "metadata" in o:
+                    o["metadata"] = dict(o["metadata"], **{rng.choice(KEYS): _scalar(rng)})
+                c["execution_count"] = rng.choice([None, 1, 2, 3, 7, 11])
+            else:
+                if o["output_type"] == "stream":
+                    o["text"] = o["text"] + rng.choice(VOCAB)
+                elif "data" in o:
+                    for m in sorted(o["data"]):
+                        if m.startswith("text/") and isinstance(o["data"][m], str):
+                            o["data"][m] = o["data"][m] + rng.choice(VOCAB)
+                            break
         elif k == "ec":
             c = cells[i]
             if c["cell_type"] == "code":
